@@ -43,6 +43,7 @@ FALSE_ALARMS = [
     ('C03', 'model', 'the first sort model inserted before equal elements (unstable); corrected to insert after them'),
     ('C04', 'oracle', 'the "accepted query must not raise" oracle counted every exception; restricted to TypeError / AttributeError (the classes the property excludes); other classes belong to C18\'s function domains'),
     ('C05', 'harness', 'FROM-expression cases need a `postings` table on the harness connection; the harness, not the compiler, was wrong'),
+    ('C05', 'harness', 'valid OPEN / CLOSE / CLEAR statements were first run on a harness table, which does not implement `update()` (NotImplementedError): moved to a layer on real ledger tables before the check was committed'),
     ('C12', 'oracle', '`value()` / `convert()` divide: results are compared up to 1e-20 relative (28-digit context), exact equality was a false alarm'),
     ('C13', 'model', 'the transfer date of CLEAR is the date of the last *directive*, not of the last transaction: the model now carries every directive (without postings)'),
     ('C14', 'oracle', 'PRINT round trip: padding transactions synthesised by the loader (flag P) are not printed as directives; excluded from the comparison'),
